@@ -62,3 +62,18 @@ def ranks(*arrays):
     allv = sorted({int(v) for a in arrays for v in a})
     rk = {v: i for i, v in enumerate(allv)}
     return [[rk[int(v)] for v in a] for a in arrays]
+
+
+def fix47(x):
+    """A float in [0, 1] that is an integer multiple of 2^-47 -> two-limb fixed point {hi, lo} (base 2^24), exactly."""
+    from fractions import Fraction
+    try:
+        n = Fraction(float(x)) * (1 << 47)
+    except (ValueError, OverflowError):
+        return dict(hi=0, lo=0, bad='nan-or-inf')
+    if n.denominator != 1:
+        return dict(hi=0, lo=0, bad='not-on-2^-47-grid')
+    n = int(n)
+    if not 0 <= n <= (1 << 47):
+        return dict(hi=0, lo=0, bad='out-of-[0,1]')
+    return dict(hi=n >> 24, lo=n & 0xFFFFFF, bad='')
